@@ -163,7 +163,7 @@ def extra_scenarios(T, rnd):
             for sched in ("c,r,a%d,p,auto", "c,a100,r,a%d,p,auto", "c,a300,r,a%d,auto"):
                 ips = [[rnd.choice((4, 6)), 1]] if alg == "single" else lst(rnd.choice((1, 2, 3)), 1)
                 out.append((["vt", "conn", tp, alg, "later", "none", 150, 300, 101, 0, rnd.randrange(3), ips],
-                            sched % rnd.choice((301, 350, 1000))))
+                            sched % rnd.choice((301, 350))))      # (the time-bound clause is judged for prompt applications)
     # xcm_server / xcm_server_a on a name that resolves, resolves late, fails, fails late, never answers
     for tp in ("tcp", "btcp"):
         for res in ("sync", "later", "fail", "faillater", "silent"):
